@@ -124,3 +124,27 @@ def lin_coef(a, size, K, xm, t, kind):
     xp = '(%s + (%s) * %s)' % (lo, xm, cur)         # coefficient K of (u + xm) p(u)
     tp = '(%s) * %s' % (t, cur)
     return '(%s - %s)' % (xp, tp) if kind == 'A' else '(%s - %s)' % (tp, xp)
+
+
+def bp(l, p, g='self._grid', gen='self'):
+    """Cox-de Boor B_{l,p} at x = gu + XM(g, gj), for x inside grid interval gj (terms with a zero-width denominator
+    dropped); l is a C index expression.  B_{l,0} = 1 iff the interval lies in [t_l, t_{l+1}]."""
+    kn = lambda off: 'KN(%s, %s + %d)' % (gen, l, off)
+    if p == 0:
+        return '((%s < %s && %s <= GRID(%s, gj) && GRID(%s, gj + 1) <= %s) ? BS_ONE : BS_ZERO)' % (kn(0), kn(1), kn(0), g, g, kn(1))
+    x = '(gu + XM(%s, gj))' % g
+    a = '(%s > %s ? (1 / (%s - %s)) * (%s - %s) * %s : BS_ZERO)' % (kn(p), kn(0), kn(p), kn(0), x, kn(0), bp(l, p - 1, g, gen))
+    b = '(%s > %s ? (1 / (%s - %s)) * (%s - %s) * %s : BS_ZERO)' % (kn(p + 1), kn(1), kn(p + 1), kn(1), kn(p + 1), x, bp('%s + 1' % l, p - 1, g, gen))
+    return '(%s + %s)' % (a, b)
+
+
+def pv(sp, n):
+    """value at the local coordinate gu of spline sp (order n-1) on the arbitrary interval gj, 0 where unsupported"""
+    return '(HASINT((%s)._support, gj) ? %s : BS_ZERO)' % (sp, evalp('COEF(%s, gj, %%d)' % sp, n, 'gu'))
+
+
+def allvalid(v, g, bound=None):
+    """every element q < bound (default v.n) of the spline vector v is a valid spline on grid object g"""
+    b = bound or (v + '.n')
+    body = '(!({k} < %s.n) || (spline_valid(%s.d[{k}]) && same_grid_obj(SP_GRID(%s.d[{k}]), %s)))' % (v, v, v, g)
+    return allk(b, body)
